@@ -40,7 +40,7 @@ var constVals = []interface{}{1.0, 2.0, "x", "y", true, nil, 1.5}
 func genConst(c *sim.Ctx) interface{} { return constVals[c.Intn(len(constVals), "const")] }
 
 func genValue(c *sim.Ctx, depth int) interface{} {
-	switch c.Intn(8, "val") {
+	switch c.Intn(9, "val") {
 	case 0:
 		if depth < 2 {
 			return map[string]interface{}{"p": genValue(c, depth+1)}
@@ -48,6 +48,11 @@ func genValue(c *sim.Ctx, depth int) interface{} {
 	case 1:
 		if depth < 2 {
 			return []interface{}{genConst(c), genValue(c, depth+1)}
+		}
+	case 2:
+		if depth < 2 {
+			// objects inside arrays (inside arrays)
+			return []interface{}{map[string]interface{}{"p": genConst(c)}, []interface{}{map[string]interface{}{"r": genConst(c)}}}
 		}
 	}
 	return genConst(c)
@@ -148,7 +153,7 @@ func genAction(c *sim.Ctx, cfg genCfg, names []string, guard bool) *ref.Action {
 		case k == 9:
 			a.Ops = append(a.Ops, ref.Op{Kind: "setfrom", K: bsKeys[c.Intn(3, "sfk")], K2: "?v"})
 		case k == 10:
-			a.Ops = append(a.Ops, ref.Op{Kind: "nest", K: bsKeys[c.Intn(3, "nk")], K2: "q", V: genConst(c)})
+			a.Ops = append(a.Ops, ref.Op{Kind: "nest", K: append(append([]string{}, bsKeys...), "k!", "?v")[c.Intn(5, "nk")], K2: "q", V: genConst(c)})
 		case k == 11:
 			if cfg.failOps {
 				a.Ops = append(a.Ops, ref.Op{Kind: "throw"})
@@ -314,8 +319,8 @@ func renderJS(a *ref.Action) string {
 		case "setfrom":
 			fmt.Fprintf(&sb, "if (bs[%s] !== undefined) { bs[%s] = bs[%s]; }\n", jsLit(op.K2), jsLit(op.K), jsLit(op.K2))
 		case "nest":
-			fmt.Fprintf(&sb, "if (bs[%s] !== null && typeof bs[%s] === 'object' && !Array.isArray(bs[%s])) { bs[%s][%s] = %s; }\n",
-				jsLit(op.K), jsLit(op.K), jsLit(op.K), jsLit(op.K), jsLit(op.K2), jsLit(op.V))
+			fmt.Fprintf(&sb, "(function nest(x) { if (x === null || typeof x !== 'object') { return; } if (Array.isArray(x)) { for (var i = 0; i < x.length; i++) { if (x[i] !== null && typeof x[i] === 'object') { nest(x[i]); } } } else { x[%s] = %s; } })(bs[%s]);\n",
+				jsLit(op.K2), jsLit(op.V), jsLit(op.K))
 		case "del":
 			fmt.Fprintf(&sb, "delete bs[%s];\n", jsLit(op.K))
 		case "clear":
@@ -374,9 +379,7 @@ func nativeAction(a *ref.Action) *core.FuncAction {
 					w[op.K] = ref.CopyVal(v)
 				}
 			case "nest":
-				if m, ok := w[op.K].(map[string]interface{}); ok {
-					m[op.K2] = ref.CopyVal(op.V)
-				}
+				ref.NestInto(w[op.K], op.K2, op.V)
 			case "del":
 				delete(w, op.K)
 			case "clear":
